@@ -7,6 +7,7 @@ import (
 	"encoding/hex"
 	"encoding/json"
 	"fmt"
+	"net/url"
 	"os"
 	"reflect"
 	"runtime"
@@ -39,25 +40,27 @@ type Scenario struct {
 	MapPolicy  int     `json:"map_policy"`
 	SkipAlone  bool    `json:"skip_alone,omitempty"`
 	Typed      bool    `json:"typed,omitempty"`
-	Prefix     string  `json:"prefix,omitempty"` // typed scenarios: the server is mounted under this path prefix and the client is given the matching base URL
+	Override   bool    `json:"override,omitempty"` // typed scenarios: every call overrides the server URL with one URL value shared by all calls
+	Prefix     string  `json:"prefix,omitempty"`   // typed scenarios: the server is mounted under this path prefix and the client is given the matching base URL
 }
 
 // Result of one scenario.
 type Result struct {
-	Aborted     bool          `json:"aborted,omitempty"`
-	ID          string        `json:"id"`
-	Alone       []*CallRecord `json:"alone,omitempty"`
-	Conc        []*CallRecord `json:"conc"`
-	Deadlock    string        `json:"deadlock,omitempty"`
-	ToolTrouble string        `json:"tool_trouble,omitempty"`
-	Yields      int           `json:"yields"`
-	Streams     int           `json:"streams"`
-	SchedHash   string        `json:"sched_hash"`
-	Switches    int           `json:"switches"`
-	SyncPoints  int           `json:"sync_points"`
-	SyncYields  int           `json:"sync_yields"`
-	FakeNS      int64         `json:"fake_ns"`
-	WallMS      int64         `json:"wall_ms"`
+	Aborted      bool          `json:"aborted,omitempty"`
+	ID           string        `json:"id"`
+	Alone        []*CallRecord `json:"alone,omitempty"`
+	Conc         []*CallRecord `json:"conc"`
+	Deadlock     string        `json:"deadlock,omitempty"`
+	InputChanged string        `json:"input_changed,omitempty"` // a value the caller owns and passed in was modified
+	ToolTrouble  string        `json:"tool_trouble,omitempty"`
+	Yields       int           `json:"yields"`
+	Streams      int           `json:"streams"`
+	SchedHash    string        `json:"sched_hash"`
+	Switches     int           `json:"switches"`
+	SyncPoints   int           `json:"sync_points"`
+	SyncYields   int           `json:"sync_yields"`
+	FakeNS       int64         `json:"fake_ns"`
+	WallMS       int64         `json:"wall_ms"`
 }
 
 type job struct {
@@ -85,9 +88,10 @@ func (s *seededRand) Read(p []byte) (int, error) {
 var maxWork time.Duration
 
 type phaseInfo struct {
-	deadlock string
-	trouble  string
-	fake     time.Duration
+	deadlock     string
+	inputChanged string
+	trouble      string
+	fake         time.Duration
 }
 
 func runPhase(t *testing.T, sc *Scenario, tasks [][]Call, faults, trivial bool, phase string, origin [2]int, alone map[[2]int]*CallRecord) (recs []*CallRecord, res phaseInfo) {
@@ -154,6 +158,11 @@ func runPhase(t *testing.T, sc *Scenario, tasks [][]Call, faults, trivial bool, 
 				return
 			}
 			tr.Handler, client = h, &typedClients{api: cl, webhook: whc, webhooks: tp.Webhooks}
+			if f, ok := tp.WithURL.(func(context.Context, *url.URL) context.Context); ok && sc.Override {
+				if u, err := url.Parse("http://sim.test" + sc.Prefix); err == nil {
+					client.override, client.overrideText, client.withURL = u, fmt.Sprintf("%#v", *u), f
+				}
+			}
 		} else {
 			newServer := servers[sc.Pkg]
 			if newServer == nil {
@@ -218,6 +227,11 @@ func runPhase(t *testing.T, sc *Scenario, tasks [][]Call, faults, trivial bool, 
 		}
 		cwg.Wait()
 		wg.Wait()
+		if client != nil && client.override != nil {
+			if now := fmt.Sprintf("%#v", *client.override); now != client.overrideText {
+				res.inputChanged = "the URL value passed to WithServerURL was " + client.overrideText + " and is now " + now
+			}
+		}
 		work := time.Since(start)
 		if work > maxWork {
 			maxWork = work
@@ -256,6 +270,7 @@ func runScenario(t *testing.T, sc Scenario) Result {
 	}
 	recs, pi := runPhase(t, &sc, sc.Tasks, true, false, "conc", [2]int{}, aloneBy)
 	res.Conc = recs
+	res.InputChanged = pi.inputChanged
 	res.Deadlock += pi.deadlock
 	res.ToolTrouble = pi.trouble
 	res.FakeNS = pi.fake.Nanoseconds()
